@@ -243,7 +243,7 @@ def run(ctx):
     from engines import check_unwrapped_callee_kinds
 
     n8 = check_unwrapped_callee_kinds(ctx, prog, flows, "R-C13-8", ("algorithms::community::louvain",), "louvain_partitions panics instead of returning its list of levels")
-    ctx.floor("R-C13-8", "unwrapped_crate_calls_in_louvain", n8, 5)
+    ctx.floor("R-C13-8", "unwrapped_crate_calls_in_louvain", n8, 2)
     # ------------------------------------------------------------------ R-C13-7
     # Bookkeeping of the community totals is conservative: while a node is being evaluated its degree is taken out
     # of its community's total and afterwards put into the chosen community's total -- the SAME amount.  If the two
